@@ -425,8 +425,12 @@ func ruleDirty(r *Report) {
 	// RangeChunks call inside a loop over txn.updates with a closure that sets Txn.dirty
 	ok := false
 	var pos ssa.Instruction
-	for _, c := range callsTo(commit, false, "(*commit.Buffer).RangeChunks") {
-		call := c.(*ssa.Call)
+	for _, dc := range callsToDeep(commit, false, "(*commit.Buffer).RangeChunks") { // the loop may sit in a helper
+		c := dc.Inner
+		call, isCall := c.(*ssa.Call)
+		if !isCall {
+			continue
+		}
 		pos = c
 		// receiver: element of txn.updates
 		elemOK := false
@@ -668,7 +672,7 @@ func checkReset(r *Report, h *RuleH) {
 	if reset := r.Anchor("(*column.Txn).reset"); reset != nil {
 		trunc := map[string]bool{}
 		clearDirty, release := false, false
-		allInstrs(reset, func(ins ssa.Instruction) {
+		deepVisit(reset, func(ins, _ ssa.Instruction) { // statements may sit in unexported helpers
 			if st, ok := ins.(*ssa.Store); ok {
 				if fr, ok := fieldOf(st.Addr); ok && fr.Struct == "column.Txn" {
 					if sl, ok := st.Val.(*ssa.Slice); ok {
@@ -1162,14 +1166,31 @@ func ruleCommitUpdates(r *Report) {
 	ok, why := skipConditions(cu)
 	h.Check(ok, "skip", r.P.Pos(cu.Pos()), "buffers skipped only when empty, the row buffer, or of an unknown column", "a buffer can be skipped by commitUpdates for another reason: "+why)
 	if wr := r.Anchor("(*column.column).Apply"); wr != nil {
-		rew := callsToDeep(wr, false, "(*commit.Reader).Rewind")
-		var app ssa.Instruction
-		allInstrs(wr, func(ins ssa.Instruction) {
-			if c, _, _ := callCommon(ins); c != nil && c.IsInvoke() && c.Method.Name() == "Apply" {
-				app = ins
+		// both may sit in a closure handed to a locking helper, or in a helper: compare them where
+		// they stand if that is one function, at their sites in the wrapper otherwise
+		type at struct{ inner, site ssa.Instruction }
+		var rews, apps []at
+		deepVisit(wr, func(ins, site ssa.Instruction) {
+			c, _, _ := callCommon(ins)
+			if c == nil {
+				return
+			}
+			if calleeIs(c, "(*commit.Reader).Rewind") {
+				rews = append(rews, at{ins, site})
+			}
+			if c.IsInvoke() && c.Method.Name() == "Apply" && isNamed(c.Value.Type(), ModPath, "Column") {
+				apps = append(apps, at{ins, site})
 			}
 		})
-		h.Check(len(rew) == 1 && app != nil && precedes(rew[0].Site, app), "(*column.column).Apply/rewind", r.P.Pos(wr.Pos()), "reader rewound before the column's Apply", "the wrapper does not rewind the reader before delegating: the second column applied to one reader sees no operations")
+		before := false
+		if len(rews) == 1 && len(apps) == 1 {
+			if rews[0].inner.Parent() == apps[0].inner.Parent() {
+				before = precedes(rews[0].inner, apps[0].inner)
+			} else {
+				before = rews[0].site != apps[0].site && precedes(rews[0].site, apps[0].site)
+			}
+		}
+		h.Check(before, "(*column.column).Apply/rewind", r.P.Pos(wr.Pos()), "reader rewound before the column's Apply", "the wrapper does not rewind the reader before delegating: the second column applied to one reader sees no operations")
 	}
 }
 
@@ -1257,9 +1278,15 @@ func ruleRowDelete(r *Report) {
 	}
 	ok := false
 	var pos, perColumnSkip ssa.Instruction
+	// the marker buffer and the block are commitMarkers' parameters of those types (wherever they stand)
+	bufP, chunkP := paramOfType(cm, "commit", "Buffer"), paramOfType(cm, "commit", "Chunk")
+	if bufP == nil || chunkP == nil {
+		h.Bad("(*column.Txn).commitMarkers/apply-all", r.P.Pos(cm.Pos()), "commitMarkers is not handed the marker buffer and the block")
+		return
+	}
 	for _, c := range callsTo(cm, false, "(*commit.Reader).Range") {
 		cc, _, _ := callCommon(c)
-		if !sameExpr(cc.Args[1], cm.Params[3]) || !sameExpr(cc.Args[2], cm.Params[1]) {
+		if !sameExpr(cc.Args[1], bufP) || !sameExpr(cc.Args[2], chunkP) {
 			continue
 		}
 		f1 := asFunc(cc.Args[3])
@@ -1586,6 +1613,9 @@ func ruleSingleSection(r *Report) {
 	h.Check(both, fnName(cb)+"/both-steps", r.P.Pos(cb.Pos()), "markers and updates in one callback", "row markers and column updates of a block are not applied by the same callback (two critical sections: a reader can see the row between them)")
 	if rwf := r.Anchor("(*column.Txn).rangeWrite"); rwf != nil {
 		for _, f := range deepFuncs(rwf) {
+			if L.lockWrapper(f) != nil {
+				continue // a call of a lock wrapper is read as the operation, in the caller
+			}
 			var acq, rel, cbs []ssa.Instruction
 			allInstrs(f, func(ins ssa.Instruction) {
 				cc, _, _ := callCommon(ins)
@@ -1737,49 +1767,81 @@ func rulePool(r *Report) {
 		if top == nil {
 			return
 		}
-		// the lookup may sit in a helper that is handed the name (columnAt → cacheAt(name))
+		// the lookup may sit in a helper that is handed the name (columnAt → cacheAt(name), bufferFor →
+		// pageOf(name)); the helper's name parameter stands for ours, and our result on the hit path
+		// is the helper's
 		fn := top
+		var nameP ssa.Value = top.Params[1]
+		type cand struct {
+			g    *ssa.Function
+			p    ssa.Value
+			call ssa.Instruction
+		}
+		cands := []cand{{top, top.Params[1], nil}}
 		for _, c := range callsWhere(top, func(_ ssa.Instruction, cc *ssa.CallCommon) bool {
 			sc := cc.StaticCallee()
 			return sc != nil && isHelper(sc) && len(cc.Args) == 2 && sameExpr(cc.Args[1], top.Params[1]) && len(originOf(sc).Params) == 2
 		}) {
 			cc, _, _ := callCommon(c)
-			if g := originOf(cc.StaticCallee()); len(fieldsStoredOn(g, "column.Txn")[field]) >= 1 {
-				fn = g
-			}
+			g := originOf(cc.StaticCallee())
+			cands = append(cands, cand{g, g.Params[1], c})
 		}
-		// a loop over txn.<field> comparing <elemField> with the name parameter, returning the element on equality
 		cmp := false
-		allInstrs(fn, func(ins ssa.Instruction) {
-			bo, ok := ins.(*ssa.BinOp)
-			if !ok || (bo.Op != token.EQL && bo.Op != token.NEQ) {
-				return
-			}
-			for _, pair := range [][2]ssa.Value{{bo.X, bo.Y}, {bo.Y, bo.X}} {
-				if !sameExpr(pair[1], fn.Params[1]) {
-					continue
+		for _, cd := range cands {
+			fn, nameP = cd.g, cd.p
+			found := false
+			allInstrs(fn, func(ins ssa.Instruction) {
+				bo, ok := ins.(*ssa.BinOp)
+				if !ok || (bo.Op != token.EQL && bo.Op != token.NEQ) {
+					return
 				}
-				if fr, isF := loadedField(pair[0]); isF && fr.Field == elemField && reachAvoiding(ins.Block(), ins.Block(), nil, nil) {
-					// the hit is decided by the name alone: the block that returns the element is
-					// the direct successor of this comparison
-					for _, ref := range *bo.Referrers() {
-						iff, isIf := ref.(*ssa.If)
-						if !isIf {
-							continue
+				for _, pair := range [][2]ssa.Value{{bo.X, bo.Y}, {bo.Y, bo.X}} {
+					if !sameExpr(pair[1], nameP) {
+						continue
+					}
+					if fr, isF := loadedField(pair[0]); isF && fr.Field == elemField && reachAvoiding(ins.Block(), ins.Block(), nil, nil) {
+						// the hit is decided by the name alone: the block that returns the element is
+						// the direct successor of this comparison
+						for _, ref := range *bo.Referrers() {
+							iff, isIf := ref.(*ssa.If)
+							if !isIf {
+								continue
+							}
+							hit := iff.Block().Succs[0]
+							if bo.Op == token.NEQ {
+								hit = iff.Block().Succs[1]
+							}
+							if _, isRet := hit.Instrs[len(hit.Instrs)-1].(*ssa.Return); isRet && len(hit.Preds) == 1 {
+								found = true
+							}
 						}
-						hit := iff.Block().Succs[0]
-						if bo.Op == token.NEQ {
-							hit = iff.Block().Succs[1]
-						}
-						if _, isRet := hit.Instrs[len(hit.Instrs)-1].(*ssa.Return); isRet && len(hit.Preds) == 1 {
-							cmp = true
+					}
+				}
+			})
+			if found && cd.call != nil {
+				// some return of ours hands on what the helper found
+				found = false
+				cv, _ := cd.call.(ssa.Value)
+				for _, ret := range returnsOf(top) {
+					for _, res := range ret.Results {
+						if cv != nil && dependsOn(res, func(v ssa.Value) bool { return v == cv }, 6) {
+							found = true
 						}
 					}
 				}
 			}
-		})
-		// the miss path appends to the cache
-		app := len(fieldsStoredOn(fn, "column.Txn")[field]) >= 1
+			if found {
+				cmp = true
+				break
+			}
+		}
+		// the miss path appends to the cache (here or in a helper)
+		app := false
+		for _, g := range deepFuncs(top) {
+			if len(fieldsStoredOn(g, "column.Txn")[field]) >= 1 {
+				app = true
+			}
+		}
 		h.Check(cmp && app, name, r.P.Pos(fn.Pos()), "lookup by name, append on miss", name+" does not find the transaction's entry by comparing its name with the requested name (or does not remember a new one): operations of one column are split over several buffers, or land in another column's")
 	}
 	byName("(*column.Txn).bufferFor", "updates", "Column")
@@ -2023,4 +2085,21 @@ func takenWhenLarger(phi *ssa.Phi, i int) bool {
 		return !pol
 	}
 	return true
+}
+
+// paramOfType: fn's one parameter of (pointer to) the named type, nil if there is none or several.
+func paramOfType(fn *ssa.Function, pkgSuffix, typ string) *ssa.Parameter {
+	var out *ssa.Parameter
+	for i, p := range fn.Params {
+		if i == 0 && fn.Signature.Recv() != nil {
+			continue
+		}
+		if isNamed(p.Type(), pkgSuffix, typ) {
+			if out != nil {
+				return nil
+			}
+			out = p
+		}
+	}
+	return out
 }
